@@ -498,6 +498,32 @@ func registerMisc(t map[string]intrinsic) {
 	}
 	t["net.Interfaces"] = nilSliceNilErr
 	t["net.InterfaceAddrs"] = nilSliceNilErr
+	for _, pk := range []string{"math/rand/v2", "math/rand"} {
+		pk := pk
+		t[pk+".Uint32"] = func(ex *Exec, caller *frame, fn *ssa.Function, args []Value) (Value, *goPanic) {
+			return ex.fresh("rand.u32", 32), nil
+		}
+		t[pk+".Uint64"] = func(ex *Exec, caller *frame, fn *ssa.Function, args []Value) (Value, *goPanic) {
+			return ex.fresh("rand.u64", 64), nil
+		}
+		t[pk+".Int"] = func(ex *Exec, caller *frame, fn *ssa.Function, args []Value) (Value, *goPanic) {
+			v := ex.fresh("rand.int", 64)
+			ex.addPC(ex.C.Cmp(OpSLe, ex.C.Const(64, 0), v))
+			return v, nil
+		}
+		intn := func(ex *Exec, caller *frame, fn *ssa.Function, args []Value) (Value, *goPanic) {
+			n := args[0].(*Term)
+			v := ex.fresh("rand.intn", n.W)
+			ex.addPC(ex.C.Cmp(OpULt, v, n))
+			return v, nil
+		}
+		t[pk+".IntN"] = intn
+		t[pk+".Intn"] = intn
+		t[pk+".Int64N"] = intn
+		t[pk+".Int63n"] = intn
+		t[pk+".Uint32N"] = intn
+		t[pk+".Uint64N"] = intn
+	}
 	t["os.LookupEnv"] = lookupEnv
 	t["syscall.Getenv"] = lookupEnv
 	t["os.Getenv"] = func(ex *Exec, caller *frame, fn *ssa.Function, args []Value) (Value, *goPanic) {
